@@ -23,7 +23,7 @@ import numpy as np
 from vmc import values as V
 from vmc.ref.c15_snapshot import Dec
 
-SHAPES = {0: (3, 4, 2), 1: (2, 3, 2, 2), 2: (4, 3)}
+SHAPES = {0: (3, 4, 2), 1: (2, 3, 2, 2), 2: (4, 3), 3: (5, 4, 3)}  # size 3 is visited by the thorough tier only
 
 
 class C:
